@@ -22,6 +22,7 @@ import errno
 import io
 import os
 import socket
+import zlib
 import struct
 import sys
 import tempfile
@@ -225,6 +226,15 @@ def run_real(case, date_patch=True):
 
         def do_sr(a):
             hdrs = [(n, v) for n, v in a[2]]
+            # the container the application hands over: mostly a list; sometimes a tuple, a one-shot iterator or a generator
+            # (the server walks it exactly once: what it checks is what it stores and sends)
+            form = zlib.crc32(repr((a[1], a[2], i)).encode()) % 8
+            if form == 1:
+                hdrs = tuple(hdrs)
+            elif form == 2:
+                hdrs = iter(hdrs)
+            elif form == 3:
+                hdrs = ((n, v) for n, v in list(hdrs))
             if a[3]:
                 try:
                     raise AppError("application error")
